@@ -36,6 +36,10 @@ type c13Case struct {
 	// CPMoved: before the history the control plane moves sessions 0 and 1 to new CP F-SEIDs by Session Modification
 	// (the notification must be addressed with the control plane's SEID as last signalled)
 	CPMoved bool `json:"cpmoved,omitempty"`
+	// Burst > 0: that many sessions (2 or 3) ask for notification, the channel between the datapath listener and the node
+	// holds ONE report, and a "burst" event delivers one report per session back to back, before anybody has drained
+	// anything: every one of them is a first report (or a full interval after the last one) and must reach the control plane
+	Burst int `json:"burst,omitempty"`
 }
 
 var c13Advances = []int64{int64(c13Interval) - 1, 1, int64(c13Interval)}
@@ -59,6 +63,9 @@ func c13Run(res *vResult, cs c13Case, ready *grpc.ClientConn) (viol, desc string
 	if !cs.P4 {
 		vsched.S = nil
 		bessU, _ = schedUPF(false, 100000*time.Second, ready)
+		if cs.Burst > 0 {
+			bessU.reportNotifyChan = make(chan uint64, 1)
+		}
 		defer func() {
 			if b, ok := bessU.datapath.(*bess); ok && b.conn != nil {
 				b.conn.Close()
@@ -75,6 +82,9 @@ func c13Run(res *vResult, cs c13Case, ready *grpc.ClientConn) (viol, desc string
 			conf := vConfFor(in.cfg)
 			u = &upf{accessIface: "access", coreIface: "core", reportNotifyChan: make(chan uint64, 1024), maxReqRetries: 1, readTimeout: 100000 * time.Second,
 				respTimeout: 2 * time.Second, fteidGenerator: NewFTEIDGenerator(), n4addr: c10N4}
+			if cs.Burst > 0 {
+				u.reportNotifyChan = make(chan uint64, 1)
+			}
 			in.u = u
 			env := newVP4EnvWith(in, conf, nil)
 			up = env.up4
@@ -101,10 +111,10 @@ func c13Run(res *vResult, cs c13Case, ready *grpc.ClientConn) (viol, desc string
 			p, f, _ := rsBasic(ue, uint32(0x100+i), "11.1.1.129")
 			p[0].QERs, p[1].QERs = nil, nil
 			p[1].ID = uint16(20 + i)
-			switch i {
-			case 0:
+			switch {
+			case i == 0 || cs.Burst > 0:
 				f[1] = sFAR{ID: 2, Action: ActionBuffer | ActionNotify}
-			case 2:
+			case i == 2:
 				if !cs.P4 {
 					p = p[:1] // no downlink PDR (UP4 needs one to learn the UE address)
 				} else {
@@ -135,6 +145,41 @@ func c13Run(res *vResult, cs c13Case, ready *grpc.ClientConn) (viol, desc string
 		sess[3] = sessInfo{up: 0xDEADBEEF, ue: vIP4("16.9.9.9")}
 		n0 := len(peer.Inbox)
 		for ei, ev := range cs.History {
+			if ev.Kind == "burst" {
+				for k := 0; k < cs.Burst; k++ {
+					if cs.P4 {
+						b := make([]byte, 4)
+						binary.BigEndian.PutUint32(b, sess[k].ue)
+						up.p4client.digests <- &p4.DigestList{Data: []*p4.P4Data{{Data: &p4.P4Data_Bitstring{Bitstring: b}}}}
+					} else {
+						b := make([]byte, 8)
+						binary.LittleEndian.PutUint64(b, sess[k].up)
+						notifySock.In = append(notifySock.In, b)
+					}
+				}
+				vsched.Quiesce("burst")
+				got := peer.Inbox[n0:]
+				n0 = len(peer.Inbox)
+				wantN := 0
+				if l, seen := lastNote[0]; !seen || now-l >= c13Interval {
+					wantN = cs.Burst
+					for k := 0; k < cs.Burst; k++ {
+						lastNote[k] = now
+					}
+				}
+				seen := map[uint64]bool{}
+				for _, b := range got {
+					if dd, err := vDecode(b); err == nil && dd.Type == message.MsgTypeSessionReportRequest {
+						seen[dd.SEID] = true
+					}
+				}
+				where := fmt.Sprintf("event %d (burst of %d reports, one per session)", ei, cs.Burst)
+				if len(got) != wantN || len(seen) != wantN {
+					viol, desc = "burst-lost-or-extra", fmt.Sprintf("%s: %d Session Report Request(s) for %d distinct session(s), %d expected", where, len(got), len(seen), wantN)
+					return
+				}
+				continue
+			}
 			if ev.Kind == "advance" {
 				vtime.Sleep(time.Duration(ev.D))
 				now += time.Duration(ev.D)
@@ -292,6 +337,37 @@ func TestVerifC13(t *testing.T) {
 						if d < depth {
 							for _, op := range ops {
 								next = append(next, append(append([]c13Ev{}, h...), op))
+							}
+						}
+					}
+					frontier = next
+				}
+			}
+		}
+	}
+	// bursts through a one-slot channel: every sequence of up to 4 events over {burst, advance by interval-1ns / 1ns / interval}
+	if vMine(0) {
+		bops := []c13Ev{{Kind: "burst"}}
+		for _, dd := range c13Advances {
+			bops = append(bops, c13Ev{Kind: "advance", D: dd})
+		}
+		for _, p4mode := range []bool{false, true} {
+			for _, nb := range []int{2, 3} {
+				frontier := [][]c13Ev{{}}
+				for dpt := 1; dpt <= 4; dpt++ {
+					var next [][]c13Ev
+					for _, h := range frontier {
+						for _, op := range bops {
+							h2 := append(append([]c13Ev{}, h...), op)
+							next = append(next, h2)
+							cs := c13Case{P4: p4mode, History: h2, Burst: nb}
+							res.journal(cs)
+							v, desc, _ := c13Run(res, cs, ready)
+							res.Evaluations++
+							res.Traces++
+							res.Distinct++
+							if v != "" {
+								res.finding(fmt.Sprintf("c13:%s:p4=%v", v, p4mode), desc, cs)
 							}
 						}
 					}
